@@ -965,12 +965,12 @@ class ModelFeatures:
             self.absorption == other.absorption
             and self.elimination == other.elimination
             and transits
-            and self.peripherals == other.peripherals
+            and self._extract_peripherals() == other._extract_peripherals()
             and self.lagtime == other.lagtime
             and self._eq_covariate(other)
             and self.direct_effect == other.direct_effect
             and self.effect_comp == other.effect_comp
-            and self.indirect_effect == other.indirect_effect
+            and self._eq_indirect_effect(other)
             and self.metabolite == other.metabolite
         )
 
@@ -992,6 +992,12 @@ class ModelFeatures:
         return set(lhs_counts_depot) == set(rhs_counts_depot) and set(lhs_counts_nodepot) == set(
             rhs_counts_nodepot
         )
+
+    def _eq_indirect_effect(self, other):
+        lhs_unique, rhs_unique, _ = _add_helper(
+            self.indirect_effect, other.indirect_effect, "modes", "production"
+        )
+        return not lhs_unique and not rhs_unique
 
     def _eq_covariate(self, other):
         lhs = self._extract_covariates()
